@@ -116,7 +116,12 @@ def run(rep, tier, rng):
             mode = ["special", "special", "plain", "constz", "constm"][(i // 13) % 5]
             const = rng.choice([shapes.INF, shapes.NINF, shapes.F_MAX, shapes.F_MIN, 0])
             shapes.gen_float = make_float_gen(mode, const)
-            f = P.gen_file(rng, code, nshapes=rng.randint(1, 4), profile="mixed", max_parts=3, max_pts=4)
+            # every eighth file: parts of 8-25 vertices (block sizes 8 and 16 and their neighbours), so that single extreme
+            # vertices also sit at positions 8, 9, 16, 17, 24 of a first part
+            long_parts = (i // 13) % 8 == 2 and code not in shapes.POINT_CODES
+            f = P.gen_file(rng, code, nshapes=rng.randint(1, 4), profile="mixed", max_parts=3, max_pts=25 if long_parts else 4)
+            if long_parts:
+                f["specs"] = [shapes.grid_ctor(rng, code, rng.randint(1, 2), rng.choice([8, 9, 10, 15, 16, 17, 24, 25]), "mixed") for _ in f["specs"]]
             if mode in ("constz", "constm"):
                 # every Z (or every M) of the file is the same special value
                 f["specs"] = [force_const(spec, code, mode, const) for spec in f["specs"]]
